@@ -11,6 +11,8 @@ Recipe of one sweep (JSON):
 
 from __future__ import annotations
 
+import json
+
 import copy
 import itertools
 from collections import Counter
@@ -306,6 +308,7 @@ def count_case(draw):
         "whole_tuple": draw(st.booleans()),
         "as_list": _chance(draw, 1, 3),
         "use_pandas": False,  # the pandas fast path is not part of the property (see ASSUMPTIONS)
+        "as_multi": _chance(draw, 1, 3),  # the sweep is a MultiSweep of the recipe and a one-value-per-key copy of it
     }
 
 
@@ -721,6 +724,11 @@ def body_count(data) -> Outcome:
     fn = model.producer[name]
     request = tuple(fn["outs"]) if (data["whole_tuple"] and len(fn["outs"]) > 1) else name
     combos = ref_combos(rec)
+    rec_b = None
+    if data.get("as_multi") and not data["as_list"]:
+        rec_b = json.loads(json.dumps(rec))
+        rec_b["items"] = [[k, vs[:1]] for k, vs in rec_b["items"]]
+        combos = combos + ref_combos(rec_b)
     deps = [f for f in model.cone(name) if f != fn["name"]]
     want = {}
     for f in deps:
@@ -740,6 +748,9 @@ def body_count(data) -> Outcome:
     try:
         pipeline = build_pipeline(prog, None)
         sweep = [dict(c) for c in combos] if data["as_list"] else build_sweep(rec)
+        if rec_b is not None:
+            sweep = MultiSweep(sweep, build_sweep(rec_b))
+            out.labels.append("as-multisweep-of-unequal-members")
     except Exception as e:
         out.fail(exc_bucket(e, "count-setup-raised"), f"{data} {exc_detail(e)}")
         return out
